@@ -288,6 +288,18 @@ class Builder:
         heap = {}
         for oid in set(s1[1]) | set(s2[1]):
             h1, h2 = s1[1].get(oid, {}), s2[1].get(oid, {})
+            o = self.objs.get(oid)
+            if o is not None and o.symbolic:
+                # a parameter of a symbolic instance that only one branch has touched: on the other branch it is
+                # still the (lazily materialised) parameter, not "whatever the first branch assigned"
+                for k in (set(h1) ^ set(h2)) & set(o.param_keys):
+                    n = self.param_nodes.get((oid, k))
+                    if n is None:
+                        n = self.mk('param', k)
+                        n.owner = oid
+                        n.op = getattr(o, 'created_op', n.op)
+                        self.param_nodes[(oid, k)] = n
+                    (h1 if k not in h1 else h2).setdefault(k, n)
             heap[oid] = {k: phi(h1.get(k), h2.get(k)) for k in set(h1) | set(h2)}
         gv = {}
         for k in set(s1[2]) | set(s2[2]):
@@ -300,6 +312,7 @@ class Builder:
     def new_obj(self, cls, symbolic=False):
         keys = self.model.parameters_keys(cls) if symbolic else None
         o = Obj(cls, keys or [], symbolic)
+        o.created_op = self.cur_op
         self.objs[o.oid] = o
         self.heap[o.oid] = {}
         return self.mk('obj', o)
@@ -309,6 +322,7 @@ class Builder:
         symbolic parameters (or the given nodes); used to analyse one function of
         a helper class for all attribute values."""
         o = Obj(cls, list(param_keys), True)
+        o.created_op = self.cur_op
         self.objs[o.oid] = o
         self.heap[o.oid] = dict(prefill or {})
         return self.mk('obj', o)
